@@ -47,3 +47,35 @@ pub fn build_and_run(name: &str, feats: &str, depth: usize, wall: f64) -> Result
     Ok((v, digests))
 }
 
+
+/// Builds the `vfeat` worker with one of its features (`style`: anstyle without `std`; `stream`: anstream without its
+/// default features) under the same build lock, runs a private copy and returns its RESULT object.
+pub fn build_and_run_feat(feat: &str) -> Result<Value, String> {
+    let (harness, build) = dirs();
+    let outdir = format!("{build}/parsecfg");
+    std::fs::create_dir_all(&outdir).map_err(|e| e.to_string())?;
+    let lock = std::fs::File::create(format!("{outdir}/.build-lock")).map_err(|e| e.to_string())?;
+    lock.lock().map_err(|e| format!("cannot lock {outdir}/.build-lock: {e}"))?;
+    let st = Command::new("cargo")
+        .current_dir(&harness)
+        .env("CARGO_NET_OFFLINE", "true")
+        .args(["build", "--offline", "--profile", "verif", "-p", "vfeat", "--no-default-features", "--features", feat])
+        .output()
+        .map_err(|e| format!("cannot run cargo: {e}"))?;
+    if !st.status.success() {
+        return Err(format!("build of vfeat [{feat}] failed: {}", String::from_utf8_lossy(&st.stderr).chars().rev().take(1500).collect::<String>().chars().rev().collect::<String>()));
+    }
+    let bin = format!("{outdir}/vfeat-{feat}-{}", std::process::id());
+    std::fs::copy(format!("{build}/target/verif/vfeat"), &bin).map_err(|e| format!("copy worker: {e}"))?;
+    drop(lock);
+    let out = Command::new(&bin).output().map_err(|e| e.to_string());
+    let _ = std::fs::remove_file(&bin);
+    let out = out?;
+    let stdout = String::from_utf8_lossy(&out.stdout);
+    let line = stdout.lines().find(|l| l.starts_with("RESULT ")).ok_or_else(|| format!("worker vfeat [{feat}] gave no result (exit {:?})", out.status.code()))?;
+    let v: Value = serde_json::from_str(&line[7..]).map_err(|e| e.to_string())?;
+    if v["config"] != feat {
+        return Err(format!("worker built for [{feat}] reports configuration {}", v["config"]));
+    }
+    Ok(v)
+}
